@@ -182,11 +182,76 @@ def r18_8(ck: Check) -> None:
                     % (skip, ("validated heights %s are not checkpoints" % missing[:4]) if hs else "no validated height lies below the horizon"), m.path)
 
 
+def _scrypt_with_fallback(ck: Check, s: Any, m: Any, local: Any) -> None:
+    """`try: from scrypt import hash as scrypt_hash / except ImportError: def scrypt_hash(...)`: the module has two providers of one
+    function (RFC 7914; scrypt.hash(password, salt, N, r, p, buflen) and hashlib.scrypt(password, salt=, n=, r=, p=, dklen=) compute the
+    same bytes, `maxmem` only decides whether OpenSSL agrees to run). Both must get N=2^15, r=8, p=1, 32 bytes."""
+    import ast as _ast
+    from ..engine.match import function_value
+    construct = "hash.scrypt: scrypt N=2^15, r=8, p=1, 32 bytes of (password, salt) with either provider (scrypt package, hashlib fallback)"
+    problems = []
+    # the fallback is defined in the ImportError handler of the try that imports the package
+    guarded = False
+    for st in m.tree.body:
+        if isinstance(st, _ast.Try):
+            imports = any(isinstance(b, _ast.ImportFrom) and b.module == "scrypt" and any((a.asname or a.name) == "scrypt_hash" and a.name == "hash" for a in b.names)
+                          for b in st.body)
+            in_handler = any(local.node in list(_ast.walk(h)) and h.type is not None and _ast.unparse(h.type) in ("ImportError", "ModuleNotFoundError")
+                             for h in st.handlers)
+            guarded = guarded or (imports and in_handler)
+    if not guarded:
+        problems.append("a local scrypt_hash replaces the scrypt package unconditionally")
+    if local.params != ["password", "salt", "N", "r", "p", "buflen"]:
+        problems.append("the fallback's parameters %s differ from scrypt.hash(password, salt, N, r, p, buflen)" % local.params)
+    # provider 1 (package): the call as written
+    rets = [n for n in _ast.walk(s.fi.node) if isinstance(n, _ast.Return)]
+    call = rets[0].value if len(rets) == 1 else None
+    if not (isinstance(call, _ast.Call) and isinstance(call.func, _ast.Name) and call.func.id == "scrypt_hash"):
+        problems.append("scrypt() does not return scrypt_hash(...)")
+    else:
+        bound: Dict[str, Any] = {}
+        names = ["password", "salt", "N", "r", "p", "buflen"]
+        for nm, a in list(zip(names, call.args)) + [(k.arg, k.value) for k in call.keywords]:
+            if isinstance(a, _ast.Name) and nm in ("password", "salt"):
+                bound[nm] = a.id
+            else:
+                try:
+                    bound[nm] = ck.repo.fold(a, m, None, {})
+                except AnalysisError:
+                    bound[nm] = None
+        want = {"password": s.fi.params[0], "salt": s.fi.params[1], "N": 32768, "r": 8, "p": 1, "buflen": 32}
+        if bound != want:
+            problems.append("scrypt_hash is called with %s" % bound)
+    # provider 2 (hashlib): what the function returns with the fallback expanded
+    got = function_value(s)
+    pw, salt = ("v", s.fi.params[0]), ("v", s.fi.params[1])
+    okf = False
+    if got is not None and got[0] == "call" and got[1] == ("g", "ext:hashlib.scrypt"):
+        kw = dict(got[3])
+        pos = list(got[2])
+        for nm in ("password", "salt"):
+            if nm not in kw and pos:
+                kw[nm] = pos.pop(0)
+        mm = kw.pop("maxmem", C(0))
+        okf = (not pos and kw == {"password": pw, "salt": salt, "n": C(32768), "r": C(8), "p": C(1), "dklen": C(32)}
+               and mm[0] == "c" and isinstance(mm[1], int) and mm[1] > 128 * 32768 * 8)
+    if not okf:
+        problems.append("with the hashlib fallback the function returns %s" % (show(got)[:200] if got is not None else None))
+    if problems:
+        ck.violated("R18.4", construct, "; ".join(problems), s.fi.loc)
+    else:
+        ck.ok("R18.4", construct, "both providers checked", s.fi.loc)
+
+
 def r18_4(ck: Check) -> None:
     s = ck.summ("skepticoin.hash.scrypt", 0)
-    require_return(ck, "R18.4", s, Spec(s, ("pw", "salt")), "scrypt_hash(pw, salt, N=32768, r=8, p=1, buflen=32)", "scrypt N=2^15, r=8, p=1, 32 bytes")
     m = ck.repo.module("skepticoin.hash")
     imp = m.imports.get("scrypt_hash")
+    local = ck.repo.functions.get("skepticoin.hash.scrypt_hash")
+    if local is None:
+        require_return(ck, "R18.4", s, Spec(s, ("pw", "salt")), "scrypt_hash(pw, salt, N=32768, r=8, p=1, buflen=32)", "scrypt N=2^15, r=8, p=1, 32 bytes")
+    else:
+        _scrypt_with_fallback(ck, s, m, local)
     if imp == ("sym", "scrypt", "hash"):
         ck.ok("R18.4", "hash.scrypt_hash is scrypt.hash of the external scrypt module", "", m.path)
     else:
